@@ -15,7 +15,7 @@ RULE = ("one evaluation = one (stack shape, construction route, operation): shap
 ASSUMPTIONS = ["siblings of an emitting/consuming sublayer inside the same group are unspecified by the statement: only 'at most once' is required of them",
                "for a deferred event only layers beyond the first receiving item are required to wait for the loop",
                "the deferred queue is shared by all stacks of a process; it is drained between cases"]
-REQUIRED = ["emitter_stacks", "emitter_cycles", "emitter_ok", "own_stack_interface_lookups", "passthrough_compositions", "passthrough_ok", "earlier_stacks_rechecked", "earlier_stacks_intact", "shape_ops", "event_ops", "detached_ops", "helper_combos", "default_stack_combos", "interface_lookups", "groups_seen"]
+REQUIRED = ["libstack_stacks", "libstack_ok", "libstack_events_up", "libstack_events_down", "emitter_stacks", "emitter_cycles", "emitter_ok", "own_stack_interface_lookups", "passthrough_compositions", "passthrough_ok", "earlier_stacks_rechecked", "earlier_stacks_intact", "shape_ops", "event_ops", "detached_ops", "helper_combos", "default_stack_combos", "interface_lookups", "groups_seen"]
 EXHAUSTIVE = None
 
 LOG = []
@@ -762,6 +762,76 @@ def library_emitter_cycles(acc, r, n, stackmod):
             acc.count("emitter_ok")
 
 
+def library_stack_events(acc, r, n):
+    """Events through stacks of the library's own layers (any selection of protocol modules, with and without the encryption
+    layers, stack options drawn from their documented values): an event emitted below them reaches a probe above them exactly
+    once, one broadcast from above reaches a probe below them exactly once; options do not change who sees an event."""
+    from vf import stackkit
+    from yowsup.layers import YowLayerEvent
+    from yowsup.layers.network import YowNetworkLayer
+    from yowsup.layers.auth import YowAuthenticationProtocolLayer
+    from yowsup.layers.protocol_iq import YowIqProtocolLayer
+    from yowsup.layers.axolotl.props import PROP_IDENTITY_AUTOTRUST
+    from yowsup.layers.interface import YowInterfaceLayer
+    sels = list(stackkit.selections())
+    for k in range(n):
+        sel = r.choice(sels)
+        enc = r.random() < 0.5
+        props = {YowIqProtocolLayer.PROP_PING_INTERVAL: r.choice([0, 0, 1, 5, 50, Ellipsis]),
+                 YowAuthenticationProtocolLayer.PROP_PASSIVE: r.choice([True, False, Ellipsis]),
+                 PROP_IDENTITY_AUTOTRUST: r.choice([True, False, Ellipsis]),
+                 YowInterfaceLayer.PROP_RECONNECT_ON_STREAM_ERR: r.choice([True, False, Ellipsis])}
+        w = {"helper": "library-stack-events", "selection": stackkit.sel_name(sel), "enc": enc, "props": {k_: (None if v is Ellipsis else v) for k_, v in props.items()}}
+        try:
+            kit = stackkit.Kit(sel, enc, props=props)
+        except Exception as e:  # noqa
+            acc.violation("libstack-build-raises:%s" % type(e).__name__, "building the library stack raised %r" % (e,), w)
+            continue
+        acc.count("libstack_stacks")
+        acc.case(["ls", stackkit.sel_name(sel), enc, sorted((k_, str(v)) for k_, v in props.items())], nontrivial=True)
+        ok = True
+        ups = [("verif.neutral", {}), (YowNetworkLayer.EVENT_STATE_CONNECTED, {}), (YowNetworkLayer.EVENT_STATE_DISCONNECTED, {"reason": "x"}), ("verif.neutral2", {"a": 1})]
+        r.shuffle(ups)
+        for name, args in ups:
+            kit.clear()
+            try:
+                kit.bottom.emitEvent(YowLayerEvent(name, **args))
+            except Exception as e:  # noqa
+                acc.violation("libstack-event-raises:up:%s" % type(e).__name__, "emitting %s below the library layers raised %r" % (name, e), w)
+                ok = False
+                break
+            seen = kit.top.event_names().count(name)
+            acc.count("libstack_events_up")
+            if seen != 1:
+                acc.violation("libstack-event-up:%s:%d" % (name.split(".")[-1], min(seen, 2)), "an event %s emitted below the library's layers was seen %d times above them (options %s)" % (name, seen, w["props"]), w)
+                ok = False
+                break
+        downs = [("verif.neutral", {}), (YowNetworkLayer.EVENT_STATE_DISCONNECT, {"reason": "x"}), (YowNetworkLayer.EVENT_STATE_CONNECT, {})]
+        r.shuffle(downs)
+        for name, args in (downs if ok else []):
+            kit.clear()
+            try:
+                kit.top.broadcastEvent(YowLayerEvent(name, **args))
+            except Exception as e:  # noqa
+                acc.violation("libstack-event-raises:down:%s" % type(e).__name__, "broadcasting %s above the library layers raised %r" % (name, e), w)
+                ok = False
+                break
+            seen = kit.bottom.event_names().count(name)
+            acc.count("libstack_events_down")
+            if seen != 1:
+                acc.violation("libstack-event-down:%s:%d" % (name.split(".")[-1], min(seen, 2)), "an event %s broadcast above the library's layers was seen %d times below them (options %s)" % (name, seen, w["props"]), w)
+                ok = False
+                break
+        if ok:
+            acc.count("libstack_ok")
+        try:
+            iq = kit.sublayer("YowIqProtocolLayer")
+            if iq is not None:
+                iq.stop_thread()
+        except Exception:
+            pass
+
+
 def shards(tier, seed, nworkers):
     q = tier == "quick"
     specs = [{"kind": "helpers"}]
@@ -783,6 +853,7 @@ def run(spec, acc):
         helpers(acc)
         library_passthrough_compositions(acc, gen.rng(seed, ID, "passthrough"), 400)
         library_emitter_cycles(acc, gen.rng(seed, ID, "emitter"), 150, stackmod)
+        library_stack_events(acc, gen.rng(seed, ID, "libstack"), 120)
         acc.sample({"helpers": "getProtocolLayers/getDefaultLayers x 16 flag combos, getDefaultStack x 32 x {no layer, layer}, positional args, pushDefaultLayers"})
         return
     if spec["kind"] == "exhaustive":
